@@ -1056,6 +1056,10 @@ def _m_into_iter(eng, st, callee, args, ev):
     if a[0] == "agg" and a[1] == "array":
         # by-value array iterator: elements in index order
         return ("agg", "adt", "core::array::iter::IntoIter", "IntoIter", ("elems", "pos"), (a, C(0, "usize")), 0)
+    sty = callee.get("self_ty") or ""
+    if sty.startswith("&[") or sty.startswith("&'") and "[" in sty and not sty.startswith("&mut"):
+        # <&[T] as IntoIterator>::into_iter(x) is x.iter()
+        return ("call", ev["id"], "core::slice::<impl [T]>::iter", (a,), "std::slice::Iter<'_, T>")
     return NotImplemented
 
 
@@ -1450,8 +1454,28 @@ def _syn_try_for_each(eng, st, callee, args, ev):
         return None
     cf = _closure_fn(eng, args[1])
     elems = _known_elems(eng, st, args[0])
-    if cf is None or cf.argc != 2 or elems is None:
+    if cf is None or cf.argc != 2:
         return None
+    if elems is None:
+        # unknown length: the documented loop  `loop { match it.next() { None => return Ok(()), Some(x) => f(x)? } }`  (explored up to the
+        # engine's loop bound, exactly like a `for` loop written in the source)
+        sty = callee.get("self_ty") or (callee.get("args") or ["?"])[0]
+        nxt = {"def": "std::iter::Iterator::next", "canon": "core::iter::traits::iterator::Iterator::next", "full": "Iterator::next", "krate": "core",
+               "name": "next", "args": [sty], "dk": "AssocFn", "unsafe": False, "trait": "core::iter::traits::iterator::Iterator", "self_ty": sty}
+        # locals: 0 ret, 1 &mut iter, 2 closure, 3 env ref, 4 next result, 5 discr, 6 closure result, 7 discr
+        st6 = []
+        blocks = [
+            _bb([], {"k": "call", "callee": nxt, "args": [{"k": "copy", "p": _P(1, ty="&mut " + sty)}], "dest": _P(4, ty="std::option::Option<&u8>"), "target": 1,
+                     "unwind": None, "line": None, "exp": True}),
+            _bb([_assign(5, {"k": "discr", "p": _P(4)})], {"k": "switch", "discr": _mv(5), "targets": [[0, 4], [1, 2]], "otherwise": 6, "dty": "isize"}),
+            None,
+            _bb([_assign(7, {"k": "discr", "p": _P(6)})], {"k": "switch", "discr": _mv(7), "targets": [[0, 0]], "otherwise": 5, "dty": "isize"}),
+            _bb([_assign(0, _variant("core::result::Result", "Ok", 0, [{"k": "const", "ty": "()", "zst": True}]))], {"k": "return"}),
+            _bb([_assign(0, {"k": "use", "op": _mv(6)})], {"k": "return"}),
+            _bb([], {"k": "unreachable"}),
+        ]
+        blocks[2] = _bb(st6, _closure_call(cf, 2, 3, [_mv(4, [{"k": "downcast", "name": "Some"}, {"k": "field", "name": "0"}])], 6, 3, st6))
+        return SynFn("try_for_each", 2, 8, blocks, st.frames[-1]["fn"])
     n = len(elems)
     # locals: 0 ret, 1 iter, 2 closure, 3 env ref, 4.. per element: value, result, discr
     fid_locals = 4 + 3 * n
